@@ -22,7 +22,7 @@ na = [dict(property_id=i, reason=R.NOT_APPLICABLE.get(i, "not yet claimed: model
       for i in all_ids if i not in R.PROPS]
 m = dict(
     version=1,
-    setup_cmd="cd lean/NasimModel && lake build",
+    setup_cmd="./check --setup",
     hooks=dict(guard="NASIM_VERIF", enable="no source hooks are needed: the harness wraps NumPy's global random functions from outside and reads public attributes; NASIM_VERIF is reserved and unused by the repository",
                baseline_off_cmd="cd /repo && /venv/bin/python -m pytest -ra -q -p no:cacheprovider --timeout=900 --continue-on-collection-errors",
                source_commits=[], add_only=True),
